@@ -160,6 +160,34 @@ theorem stalled_streams_then_reaper_proceeds (steps sched : List Step)
   have := stalled_stream_unblocks_reaper (steps ++ sched) hall (by rw [hrun]; exact ha0) (by rw [hrun]; exact hr0)
   exact ⟨hall, this.1, this.2⟩
 
+/-- the hypotheses of `stalled_streams_then_reaper_proceeds` are satisfiable by a non-trivial
+run: two streams are open (one with a 30 ns idle timeout, last read at 10; one without a
+timeout) and a short reader is inside; the further schedule has the first stream's idle
+callback at 45 (≥ 10 + 30), the second stream's own `Close`, and the short reader's release —
+after which the blocked reaper gets the lock -/
+example :
+    let steps : List Step := [.open_ 30 0, .open_ 0 0, .auxBegin, .read 0 10 4]
+    let sched : List Step := [.checkIdle 0 45, .close 1, .auxEnd]
+    (∀ st ∈ (run {} (steps ++ sched)).streams, st.closed = true) ∧
+    (run {} (steps ++ sched)).m.writeEnabled = true ∧
+    (RqModel.Streamer.step (run {} (steps ++ sched)) .reapBlocking).reaping = 1 := by
+  intro steps sched
+  refine stalled_streams_then_reaper_proceeds steps sched (by decide) ?_ (by decide) (by decide)
+  intro i a h
+  match i with
+  | 0 =>
+    have h0 : (run {} steps).streams[0]? = some ⟨30, 10, some 30, false, false, 0, 0⟩ := by decide
+    rw [h0] at h
+    cases h
+    exact Or.inr ⟨.checkIdle 0 45, by decide, Or.inr ⟨45, rfl, by decide⟩⟩
+  | 1 =>
+    exact Or.inr ⟨.close 1, by decide, Or.inl rfl⟩
+  | n + 2 =>
+    have hlen : (run {} steps).streams.length = 2 := by decide
+    have : (run {} steps).streams[n + 2]? = none := List.getElem?_eq_none (by omega)
+    rw [this] at h
+    cases h
+
 /-- **Every release in snapshot/store.go is accounted for** (regenerated): each function's
 `BeginRead`/`BeginReadBlocking`/`BeginWrite`/`BeginWriteBlocking` is immediately followed by
 the matching deferred release, except the read lock taken by `Open`, which is released in
